@@ -273,6 +273,24 @@ func init() {
 		"errors.As": func(fr *frame, a []value) value {
 			return fr.i.errorsAs(fr, a[0], a[1])
 		},
+		// ---- sync.Pool: a pool that never retains anything (always legal)
+		"(*sync.Pool).Get": func(fr *frame, a []value) value {
+			st := (*a[0].(*value)).(structure)
+			rt := fr.fn.Signature.Recv().Type().(*types.Pointer).Elem().Underlying().(*types.Struct)
+			for k := 0; k < rt.NumFields(); k++ {
+				if rt.Field(k).Name() == "New" {
+					if st[k] == nil {
+						return iface{}
+					}
+					if f, ok := st[k].(*ssa.Function); ok && f == nil {
+						return iface{}
+					}
+					return call(fr.i, fr, token.NoPos, st[k], nil)
+				}
+			}
+			return iface{}
+		},
+		"(*sync.Pool).Put": func(fr *frame, a []value) value { return nil },
 		// ---- sync.WaitGroup
 		"(*sync.WaitGroup).Add": func(fr *frame, a []value) value {
 			fr.i.sched.yield()
